@@ -36,7 +36,7 @@ TPS == 1000
 
 ---------------------------------------------------------------------------
 (* Vocabulary                                                              *)
-(*  query    [name, cs, qtype, qclass, op, nq, ad, cd, do, rd]             *)
+(*  query    [name, cs, qtype, qclass, op, nq, ad, cd, do, rd, route]      *)
 (*           name is case-folded, cs names the spelling the client used    *)
 (*  message  [hdr |-> [aa,tc,rd,ra,ad,cd,rcode], qd, an, ns, ar]           *)
 (*           qd: sequence of [n, cs, t, c]; an/ns/ar: sequences of         *)
@@ -44,6 +44,59 @@ TPS == 1000
 (*  error    [err |-> name]   (transport failure)                          *)
 
 IsErr(r) == "err" \in DOMAIN r
+
+---------------------------------------------------------------------------
+(* How a request was CONSTRUCTED (q.route).  The cache never sees "flags": *)
+(* it sees a RequestMessage, composes it (ComposeRequest::to_message) and  *)
+(* reads RD/AD/CD from the header and DO from the OPT record of the        *)
+(* result; the transport below composes the same request again             *)
+(* (append_message into its own target) and THAT is what upstream is       *)
+(* asked.  Request composition is specified by X15 (ReqCompose.tla) and    *)
+(* reused here, not re-derived.                                            *)
+(*   q.route = [src |-> [rd, ad, cd, opt], ops |-> <<op, ...>>]            *)
+(*   src.rd/ad/cd  bits already set in the source message handed to        *)
+(*                 RequestMessage::new                                     *)
+(*   src.opt       0: no OPT record in the source, 1: an OPT with DO       *)
+(*                 clear, 2: an OPT with DO set (a forwarded stub query)   *)
+(*   ops           setter calls in order: <<"rd"|"ad"|"cd", 0|1>>          *)
+(*                 header_mut().set_x(b); <<"do", 0|1>> set_dnssec_ok(b);  *)
+(*                 <<"udp", n>> set_udp_payload_size(n)                    *)
+RC == INSTANCE ReqCompose          \* Dev <- Dev
+
+B01(b) == IF b THEN 1 ELSE 0
+SrcMsg(s) ==
+  [h |-> [id |-> 0, qr |-> 0, op |-> 0, aa |-> 0, tc |-> 0, rd |-> B01(s.rd), ra |-> 0,
+          z |-> 0, ad |-> B01(s.ad), cd |-> B01(s.cd), rc |-> 0],
+   q |-> <<>>, an |-> <<>>, ns |-> <<>>,
+   ar |-> IF s.opt = 0 THEN <<>>
+          ELSE <<RC!OptRR([udp |-> 1232, do |-> s.opt - 1, opts |-> <<>>])>>,
+   comp |-> 0, cut |-> 0]
+SetterOf(o) == IF o[1] \in {"rd", "ad", "cd"} THEN [k |-> "hset", f |-> o[1], v |-> o[2]]
+               ELSE [k |-> o[1], v |-> o[2]]
+RECURSIVE ApplyOps(_, _)
+ApplyOps(st, ops) ==
+  IF ops = <<>> THEN st ELSE ApplyOps(RC!Setter(st, SetterOf(Head(ops))), Tail(ops))
+ReqOf(route) == ApplyOps(RC!NewReq("single", SrcMsg(route.src)), route.ops)
+
+(* the flag class of a composed message, read the way cache.rs reads it *)
+MsgFlags(c) ==
+  LET o == RC!OptRecs(c.m.ar)
+  IN [rd |-> c.m.h.rd = 1, ad |-> c.m.h.ad = 1, cd |-> c.m.h.cd = 1,
+      do |-> o # <<>> /\ o[1].ttl[2] \div 32768 = 1]
+(* mutant M_fastpath: to_message() hands out the source message itself when *)
+(* no setter was used, including an OPT record append_message drops         *)
+ToMessage(st) ==
+  IF "M_fastpath" \in Mut /\ st.opt = <<>> /\ st.h = st.src.h
+  THEN RC!Done([h |-> st.src.h, ar |-> st.src.ar])
+  ELSE RC!Compose(st, "to_message")
+CacheSees(route) == MsgFlags(ToMessage(ReqOf(route)))            \* get_response_impl
+WireSees(route)  == MsgFlags(RC!Compose(ReqOf(route), "stream")) \* the transport
+Intended(route)  == MsgFlags(RC!Ideal(ReqOf(route)))             \* X15's P2
+WithFlags(q, f) == [q EXCEPT !.rd = f.rd, !.ad = f.ad, !.cd = f.cd, !.do = f.do]
+NormQ(q)  == WithFlags(q, Intended(q.route))     \* the request the client made
+KeyQ(q)   == WithFlags(q, CacheSees(q.route))    \* as the cache reads it
+AskedQ(q) == WithFlags(q, WireSees(q.route))     \* as upstream is asked
+FlagsOf(q) == [rd |-> q.rd, ad |-> q.ad, cd |-> q.cd, do |-> q.do]
 
 DnssecTypes == {"RRSIG", "NSEC", "NSEC3"}
 IsDnssecT(t) == t \in DnssecTypes          \* fn is_dnssec
@@ -235,24 +288,31 @@ Bypass(q) == q.nq # 1 \/ q.op # "QUERY" \/ q.qclass # "IN"
 (* One call of send_request + get_response on cache::Connection, starting  *)
 (* from map E0 (E0 = entries except where a trace needs an eviction        *)
 (* first).  `up` is what upstream answers if it is consulted.              *)
-QueryFrom(E0, q, up) ==
+QueryFrom(E0, q0, up) ==
+  LET q  == NormQ(q0)
+      kq == KeyQ(q0)        \* the request as the cache reads it (to_message)
+      wq == AskedQ(q0)      \* the request as the transport composes it
+  IN
   IF Bypass(q) THEN
       /\ entries' = E0
-      /\ log' = Append(log, [t |-> now, q |-> q, resp |-> up])
-      /\ last' = [q |-> q, served |-> up, fromCache |-> FALSE, t |-> now, via |-> "bypass"]
+      /\ log' = Append(log, [t |-> now, q |-> wq, resp |-> up])
+      /\ last' = [q |-> q, served |-> up, fromCache |-> FALSE, t |-> now, via |-> "bypass",
+                  keyq |-> kq, asked |-> wq]
   ELSE
-    LET k == KeyOf(q)
+    LET k == KeyOf(kq)
         r == Lookup(E0, k, cfg)
     IN IF r.hit /\ ~Expired(r.v, now) THEN
           /\ entries' = r.E
           /\ log' = log
           /\ last' = [q |-> q, served |-> GetResponse(r.v, q, now),
-                      fromCache |-> TRUE, t |-> now, via |-> r.via]
+                      fromCache |-> TRUE, t |-> now, via |-> r.via,
+                      keyq |-> kq, asked |-> wq]
        ELSE
           /\ entries' = CacheInsert(r.E, k, ValueNew(up, cfg, now), cfg)
-          /\ log' = Append(log, [t |-> now, q |-> q, resp |-> up])
+          /\ log' = Append(log, [t |-> now, q |-> wq, resp |-> up])
           /\ last' = [q |-> q, served |-> up, fromCache |-> FALSE, t |-> now,
-                      via |-> IF r.hit THEN "expired" ELSE "miss"]
+                      via |-> IF r.hit THEN "expired" ELSE "miss",
+                      keyq |-> kq, asked |-> wq]
 
 Query(q, up) == QueryFrom(entries, q, up) /\ UNCHANGED <<cfg, now>>
 
@@ -266,15 +326,17 @@ Without(E, K) == [x \in (DOMAIN E) \ K |-> E[x]]
 (* would q be answered from the map E at the current time? *)
 Hits(E, q) ==
   /\ ~Bypass(q)
-  /\ LET r == Lookup(E, KeyOf(q), cfg) IN r.hit /\ ~Expired(r.v, now)
+  /\ LET r == Lookup(E, KeyOf(KeyQ(q)), cfg) IN r.hit /\ ~Expired(r.v, now)
 
 Evict(k) == /\ k \in DOMAIN entries
             /\ entries' = Without(entries, {k})
             /\ UNCHANGED <<cfg, now, log, last>>
 
-NoLast == [q |-> [name |-> "", cs |-> 0, qtype |-> "", qclass |-> "", op |-> "",
-                  nq |-> 0, ad |-> FALSE, cd |-> FALSE, do |-> FALSE, rd |-> FALSE],
-           served |-> [err |-> "none"], fromCache |-> FALSE, t |-> 0, via |-> "none"]
+NoRoute == [src |-> [rd |-> FALSE, ad |-> FALSE, cd |-> FALSE, opt |-> 0], ops |-> <<>>]
+NoQ == [name |-> "", cs |-> 0, qtype |-> "", qclass |-> "", op |-> "",
+        nq |-> 0, ad |-> FALSE, cd |-> FALSE, do |-> FALSE, rd |-> FALSE, route |-> NoRoute]
+NoLast == [q |-> NoQ, served |-> [err |-> "none"], fromCache |-> FALSE, t |-> 0, via |-> "none",
+           keyq |-> NoQ, asked |-> NoQ]
 EmptyMap == [x \in {} |-> NoVal]
 
 InitWith(c) == /\ cfg = c /\ now = 0 /\ entries = EmptyMap /\ log = <<>> /\ last = NoLast
@@ -367,6 +429,11 @@ NoDnssecLeak(x) ==
            \A i \in DOMAIN s : Entitled(x.q, s[i])
      /\ (x.served.hdr.ad => (x.q.ad \/ x.q.do))
 NoPanic(x) == x.fromCache => ~Underflow(x.served)     \* Ttl subtraction cannot underflow
+(* the cache's view of a request is the view upstream gets: the flag class  *)
+(* under which an answer is looked up and stored is the flag class the      *)
+(* upstream is asked with, and both are the request the client made         *)
+ViewIsWire(x) == /\ FlagsOf(x.keyq) = FlagsOf(x.asked)
+                 /\ FlagsOf(x.keyq) = FlagsOf(x.q)
 
 (* as state invariants (trace validation: every state is new) *)
 I_ServedWasSaid   == ServedWasSaid(last)
@@ -375,4 +442,5 @@ I_NeverStale      == NeverStale(last)
 I_BoundsRespected == BoundsRespected(last)
 I_NoDnssecLeak    == NoDnssecLeak(last)
 I_NoPanic         == NoPanic(last)
+I_ViewIsWire      == ViewIsWire(last)
 =============================================================================
